@@ -133,7 +133,28 @@ pub fn generate(rng: &mut Rng, subjects: &[Subject]) -> StreamPlan {
                         len: *rng.pick(&[1u32, 2, 4, 8, 32]),
                     },
                     _ => Damage::Append {
-                        bytes: {
+                        bytes: if rng.chance(1, 3) {
+                            // tails that are not a complete item themselves: a lone break, the start of a
+                            // multi-byte header, a reserved header byte
+                            let t: &[&[u8]] = &[
+                                &[0xff],
+                                &[0x18],
+                                &[0x19, 0x01],
+                                &[0x1a, 0, 0],
+                                &[0x1b, 0, 0, 0],
+                                &[0x1c],
+                                &[0x38],
+                                &[0x5a, 0, 0],
+                                &[0x78],
+                                &[0x98],
+                                &[0xb8],
+                                &[0xd8],
+                                &[0xf8],
+                                &[0xfb, 0],
+                                &[0x00],
+                            ];
+                            rng.pick(t).to_vec()
+                        } else {
                             let n = rng.urange(1, 9);
                             rng.bytes(n)
                         },
@@ -331,6 +352,24 @@ pub fn execute(plan: &StreamPlan, subjects: &[Subject], rec: &mut Recorder) -> O
             if let Some(v) = alloc_check(st, b.len(), "decoding damaged bytes") {
                 return Some(v);
             }
+            if out.res.is_ok()
+                && s.rejects_trailing
+                && !plan.damage.is_empty()
+                && plan.damage.iter().all(|d| matches!(d, Damage::Append { bytes } if !bytes.is_empty()))
+            {
+                // a complete encoding followed by anything at all is not an encoding of the value
+                return Some(Violation::new(
+                    "trailing",
+                    format!("trailing-accepted/{}", s.name),
+                    format!(
+                        "{}: the encoding {} followed by the extra bytes {} is accepted by a decoder that documents rejecting remaining data",
+                        s.name,
+                        hx(&bytes),
+                        hx(&b[bytes.len()..])
+                    ),
+                    0,
+                ));
+            }
             if let Ok(re) = out.res {
                 rec.probe("damaged_accepted");
                 let consumed = if s.rejects_trailing { b.len() } else { out.consumed.min(b.len()) };
@@ -430,6 +469,20 @@ pub fn execute(plan: &StreamPlan, subjects: &[Subject], rec: &mut Recorder) -> O
                 _ => {}
             }
             if let Ok(re) = out.res {
+                // an accepted byte string of a type with unique encodings is the encoding of the value
+                if s.canonical && s.stable_bytes && out.consumed <= b.len() && re != b[..out.consumed] {
+                    return Some(Violation::new(
+                        "canonical",
+                        classify_noncanonical(s, &b[..out.consumed], &re),
+                        format!(
+                            "{}: the crafted byte string {} is accepted, but the decoded value encodes as {}: two encodings of one value",
+                            s.name,
+                            hx(&b[..out.consumed]),
+                            hx(&re)
+                        ),
+                        0,
+                    ));
+                }
                 if s.stable_bytes {
                     let out2 = (s.decode)(&re, &ReadPlan::clean());
                     match out2.res {
